@@ -417,4 +417,99 @@ def r17_9(ctx):
     return out
 
 
-RULES = [r17_1, r17_2, r17_3, r17_4, r17_5, r17_6, r17_7, r17_8, r17_9]
+class _Nm(StandIn):
+    """a named point: equal to every other point of the same name, whichever object it is"""
+
+    def __init__(self, name):
+        self.name = name
+
+    def __eq__(self, o):
+        return isinstance(o, _Nm) and o.name == self.name
+
+    def __ne__(self, o):
+        return not self == o
+
+    def __hash__(self):
+        return hash(self.name)
+
+    def __repr__(self):
+        return self.name
+
+
+def r17_10(ctx):
+    """abstract run (W) of from_full_curve on stand-in splines of degree 1, 2 and 3 whose last control point repeats the
+    first as a second object: whatever constructor it ends in, the closed curve described -- one segment per piece of
+    the spline, piece i with the control points of piece i -- must be the one the pieces give (no piece more or less,
+    no repeated junction; the degree reduction is the business of the segments setter every constructor ends in)"""
+    out = Outcome("R17.10", "from_full_curve describes the closed curve by one segment per piece of the spline, with the "
+                            "control points of that piece, whatever the degree of the spline", floor=3)
+    fn = ctx.fn("jordancurve.JordanCurve.from_full_curve")
+    for degree, npieces in ((1, 3), (1, 4), (2, 2), (3, 3)):
+        names = [chr(ord("A") + i) for i in range(degree * npieces)]
+        ctrl = [_Nm(n) for n in names] + [_Nm(names[0])]          # closed: the first point again, as another object
+        log = []
+
+        class Piece(StandIn):
+            def __init__(self, pts):
+                self.ctrlpoints, self.degree, self.npts, self.cleaned = tuple(pts), degree, degree + 1, False
+
+            def clean(self, *a, **k):
+                self.cleaned = True
+                return self
+
+        pieces = [Piece(ctrl[i * degree:(i + 1) * degree + 1]) for i in range(npieces)]
+
+        class Full(StandIn):
+            def __init__(self):
+                self.ctrlpoints, self.degree, self.npts = tuple(ctrl), degree, len(ctrl)
+                self.knotvector = tuple([0] * (degree + 1) + [Fr(i, npieces) for i in range(1, npieces)] + [1] * (degree + 1))
+
+            def split(self, *a):
+                return list(pieces)
+
+        class Cls(StandIn):
+            @staticmethod
+            def from_ctrlpoints(lists):
+                log.append([tuple(x) for x in lists])
+                return "CURVE"
+
+            @staticmethod
+            def from_vertices(vs):
+                vs = list(vs)
+                log.append([(vs[i], vs[(i + 1) % len(vs)]) for i in range(len(vs))])
+                return "CURVE"
+
+            @staticmethod
+            def from_segments(segs):
+                log.append([tuple(getattr(x, "ctrlpoints", ())) for x in segs])
+                return "CURVE"
+
+        def hook(rn, ev, call, name, recv, args, kwargs):
+            if name == "isinstance":
+                return True
+            if name in ("from_ctrlpoints", "from_vertices", "from_segments") and len(args) == 1:
+                return getattr(Cls, name)(args[0])
+            if name in ("PlanarCurve", "BezierCurve") and args:
+                return Piece(args[0])
+            if name == "Point2D" and args:
+                return args[0]
+            return NotImplemented
+        label = f"closed spline of degree {degree} with {npieces} pieces"
+        try:
+            got = Runner(ctx, set(), hook, asserts=True).call_fn(fn, [Full()])
+        except (Undecided, Raised) as ex:
+            out.undecided(fn.qname, f"{label}: {ex}", where=fn.where())
+            continue
+        want = [tuple(x.name for x in pc.ctrlpoints) for pc in pieces]
+        desc = [tuple(x.name for x in seg) for seg in log[-1]] if log else None
+        if got != "CURVE" or len(log) != 1:
+            out.bad(fn.qname, f"{label}: does not end in one constructor call", where=fn.where())
+        elif desc != want:
+            out.bad(fn.qname, f"{label}: the curve built is not the chain of the pieces of the spline", where=fn.where(),
+                    detail=f"segments described {desc}, pieces {want}")
+        else:
+            out.ok(fn.qname, f"{label}: {npieces} segments, control points of the pieces in order", where=fn.where())
+    return out
+
+
+RULES = [r17_1, r17_2, r17_3, r17_4, r17_5, r17_6, r17_7, r17_8, r17_9, r17_10]
